@@ -431,6 +431,9 @@ class TJPTransformer(Transformer[Any, Any]):
 
     # Named task attribute rules
     def task_start(self, items: list[Any]) -> tuple[str, Any]:
+        if isinstance(items[0], Token) and items[0].type == "MACRO_REF":
+            # Known macros were expanded before parsing: what is left is undefined
+            raise ValueError(f"start date refers to the undefined macro {items[0].value}")
         return ("start", items[0])
 
     def task_end(self, items: list[Any]) -> tuple[str, Any]:
